@@ -116,6 +116,12 @@ def mk(q):
         if q["mapped"]:
             inner = q["p"]
             ids = [inner["id"] + 10 * i for i in range(q["n"])]
+            if inner["k"] == "cadd":              # a conditional child with vectorised parameters
+                shape, cs = shape_of(inner["shape"]), shape_of(inner["cs"])
+                n, m = int(np.prod(shape)) if shape else 1, int(np.prod(cs)) if cs else 1
+                Ws = jnp.asarray(np.array([[[cw(i, kk, mm) for mm in range(m)] for kk in range(n)] for i in ids], dtype=float))
+                b = eqx.filter_vmap(lambda W: bj.AdditiveCondition(LinearInt(W, shape), shape, cs))(Ws)
+                return bj.Vmap(b, in_axes=eqx.if_array(0), in_axes_condition=cax)
             locs, scales = aff_arrays(ids, shape_of(inner["shape"]))
             b = eqx.filter_vmap(_aff_from_arrays)(locs, scales)
             return bj.Vmap(b, in_axes=eqx.if_array(0), in_axes_condition=cax)
